@@ -1252,7 +1252,14 @@ def _work(job):
             W = run_case(prim, cfg, specs)
             st["exec"] += 1
             st["trans"] += W.deliveries
-            st["outcomes"].add(digest(W.log))
+            dg = digest(W.log)
+            st["outcomes"].add(dg)
+            if st["exec"] % 211 == 1:
+                # determinism self-check: the same schedule must give the same observation and verdict
+                W2 = run_case(prim, cfg, specs)
+                if digest(W2.log) != dg or sorted(W2.viol) != sorted(W.viol):
+                    raise RuntimeError(f"C09 harness error: nondeterministic execution for {prim} {cfg} {specs}")
+                st["recheck"] = st.get("recheck", 0) + 1
             st["kinds"][W.outcome] = st["kinds"].get(W.outcome, 0) + 1
             if W.outcome == "horizon":
                 st["horizon"] += 1
@@ -1308,6 +1315,7 @@ def run_driver(run, name, prim, cfgs, plans, seed, spec_doc):
         for k, v in st["kinds"].items():
             kinds[k] = kinds.get(k, 0) + v
         max_same = max(max_same, st["max_same"])
+        d.extra["determinism_rechecks"] = d.extra.get("determinism_rechecks", 0) + st.get("recheck", 0)
         if st["horizon"]:
             d.exhaustive = False
             if "max_events horizon reached" not in d.caps:
